@@ -103,7 +103,7 @@ def to_json(I, v, hint=None):
         if v.ty == "Option":
             return to_json(I, v.f[0]) if v.d == 1 else jnull()
         # repo enum
-        vs = I.p.src.enums.get(v.ty)
+        vs = I.p.src.enum_def(v.ty)
         if vs is None:
             raise Unsupported("serialize enum " + v.ty)
         attrs = " ".join(I.p.src.enum_attrs.get(v.ty, []))
@@ -161,7 +161,7 @@ def to_json(I, v, hint=None):
             return to_json(I, v.f[0])
         if st == "TimeoutLimit":
             return jstr(display(I, v))
-        fields = I.p.src.struct_fields(st)
+        fields = I.p.src.struct_fields(v.ty)
         if fields is None:
             raise Unsupported("serialize struct " + str(v.ty))
         if len(fields) == 1 and fields[0][0] == "0":
@@ -257,7 +257,7 @@ def from_json(I, jv, ty):
             raise SerdeError("expected a tuple")
         return Agg("tuple", [from_json(I, e, p) for e, p in zip(jv.f[0].a, parts)])
     # repo enum
-    vs = I.p.src.enums.get(st)
+    vs = I.p.src.enum_def(t) if not st.startswith(("(", "[")) else None
     if vs is not None:
         attrs = " ".join(I.p.src.enum_attrs.get(st, []))
         if "Deserialize_repr" in attrs:
@@ -291,21 +291,23 @@ def from_json(I, jv, ty):
                         return Enum(st, d, [from_json(I, e, p) for e, p in zip(inner.f[0].a, payload)], name)
                     return Enum(st, d, [_field(I, inner, fn, ft, []) for fn, ft in payload.items()], name)
         raise SerdeError("invalid enum")
-    fields = I.p.src.struct_fields(st)
+    fields = I.p.src.struct_fields(t)
     if fields is not None:
+        st = _full(I, t)
         if len(fields) == 1 and fields[0][0] == "0":
-            return Agg(_full(I, st), [from_json(I, jv, fields[0][1])])
+            return Agg(st, [from_json(I, jv, fields[0][1])])
         if not fields:
-            return Agg(_full(I, st), [])
+            return Agg(st, [])
         if jv.d != 5:
             raise SerdeError("expected a map for struct " + st)
-        sattrs = " ".join(I.p.src.struct_attrs.get(st, []))
-        return Agg(_full(I, st), [_field(I, jv, fn, ft, fa, "serde(default)" in sattrs) for fn, ft, fa in fields])
+        sattrs = " ".join(I.p.src.struct_attrs.get(st.split("::")[-1], []))
+        return Agg(st, [_field(I, jv, fn, ft, fa, "serde(default)" in sattrs) for fn, ft, fa in fields])
     raise Unsupported("deserialize into " + t)
 
 
-def _full(I, st):
-    return st
+def _full(I, t):
+    from .index import strip_generics
+    return strip_generics(t.strip())
 
 
 def _inner(t):
@@ -519,7 +521,7 @@ def register(I):
         p.set(jnull())
         return v
 
-    @pat(r"^<serde_json::Value as std::ops::Index<.*>>::index$")
+    @pat(r"^<serde_json::Value as std::ops::Index>::index$")
     def _v_index(I, a, cc):
         r = _v_get(I, a, cc)
         if r.d == 1:
@@ -538,11 +540,11 @@ def register(I):
         fm.parts.append(display(I, deref_all(a[0]).n))
         return ok(UNIT)
 
-    @pat(r"^<serde_json::Value as std::convert::From<.*>>::from$")
+    @pat(r"^<serde_json::Value as std::convert::From>::from$")
     def _v_from(I, a, cc):
         return to_json(I, a[0])
 
-    @pat(r"^<serde_json::Number as std::convert::From<.*>>::from$")
+    @pat(r"^<serde_json::Number as std::convert::From>::from$")
     def _n_from(I, a, cc):
         return JNum(a[0])
 
